@@ -2,6 +2,7 @@
 # regress_seeds.sh [pattern] : re-applies every seeded change under seeded/ to the repository
 # (VERIF_REPO, default /repo; the tree must be clean), runs the quick check of its property (and of the
 # neighbouring property named in meta.json's caught_by, if any) and reports whether it is still caught.
+export VERIF_NO_EVIDENCE=1   # evidence files describe runs on the unchanged tree only
 REPO=${VERIF_REPO:-/repo}
 cd "$(dirname "$0")"
 PAT=${1:-}
